@@ -200,6 +200,14 @@ func (s *APIRegServer) registerBidirectional(w http.ResponseWriter, r *http.Requ
 		return
 	}
 
+	if payload.GetRegistrationPayload() == nil {
+		// Nothing to register. The generation of the payload is read and replaced below, so a
+		// wrapper without one has to be refused here, the way the processor refuses it.
+		reqLogger.Errorf("registration failed: %v", regprocessor.ErrNoC2SBody)
+		http.Error(w, "no C2S body", http.StatusBadRequest)
+		return
+	}
+
 	reqLogger = reqLogger.WithField("reg_id", hex.EncodeToString(payload.GetSharedSecret()))
 
 	var clientAddrBytes = make([]byte, 16)
